@@ -38,6 +38,7 @@ type c11dState struct {
 	deleted         []string
 	np              *c11npStore
 	have            map[string]bool // kind/name of objects that exist
+	policies        bool            // network policies are enabled in the provider's settings
 	deploys         map[string]*appsv1.Deployment
 	services        map[string]*corev1.Service
 	ingresses       map[string]*netv1.Ingress
@@ -51,6 +52,11 @@ func (s *c11dState) addressed(ns string) {
 func (s *c11dState) object(kind, ns, name string) {
 	// an object without a namespace of its own is placed in the namespace the call is addressed to
 	verif_Assert(ns == "" || ns == s.leaseNS, "C11 every object generated for a lease lives in the lease's namespace")
+	if s.policies {
+		// a deploy may fail at any later call: a workload written before the namespace's policies
+		// would then run with no network policy at all
+		verif_Assert(len(s.np.list()) > 0, "C11 with network policies enabled no workload is written to a namespace whose policies are not in place yet")
+	}
 	s.have[kind+"/"+name] = true
 }
 
@@ -255,7 +261,8 @@ func Harness_C11_deploy() {
 		{Port: 8080, Proto: manifest.TCP, Global: true},
 		{Port: 5432, Proto: manifest.TCP, Service: "db"},
 	}}}}
-	c := &client{kc: c11dKC{s: st}, ac: c11dAC{s: st}, ns: st.provNS, settings: Settings{NetworkPoliciesEnabled: verif_Choice("network-policies", 2) == 1, DeploymentIngressStaticHosts: false}, log: log.NewNopLogger()}
+	st.policies = verif_Choice("network-policies", 2) == 1
+	c := &client{kc: c11dKC{s: st}, ac: c11dAC{s: st}, ns: st.provNS, settings: Settings{NetworkPoliciesEnabled: st.policies, DeploymentIngressStaticHosts: false}, log: log.NewNopLogger()}
 	err := c.Deploy(context.Background(), lid, group)
 	if redeploy && err == nil {
 		err = c.Deploy(context.Background(), lid, group)
